@@ -311,6 +311,8 @@ type heapRun struct {
 	seen    map[string]bool
 	via     int
 	lastErr error
+	// newFailed: the container refused rows of a New step (the history cannot go on: its object indices are off)
+	newFailed bool
 }
 
 func (h *heapRun) note(nm []byte) {
@@ -438,7 +440,7 @@ func runSteps(env *Env, id string, viaBase int, next func(h *heapRun, i int) *St
 			}()
 		}
 		env.Emit(ev)
-		if ev.Kind == "panic" {
+		if ev.Kind == "panic" || h.newFailed {
 			return // the rest of the history is not judged
 		}
 	}
@@ -477,7 +479,10 @@ func (h *heapRun) apply(st Step, ret map[string]interface{}) error {
 		}
 		for _, r := range rowsArg(a["rows"]) {
 			if err := o.sb.AddSequenceChar(string(i2b(r.N)), i2b(r.S), ""); err != nil {
-				panic(harnessPanic("harness: New with inconsistent rows: " + err.Error()))
+				// rows the specification accepts (the generators only build such objects) are refused by the container:
+				// an observation about the code (errClass of New), not a reason to stop - this history ends here
+				h.newFailed = true
+				return err
 			}
 		}
 		h.objs = append(h.objs, o)
